@@ -549,3 +549,36 @@ STATE_LEVEL = {"qpos", "qvel", "act", "time", "xpos", "xquat", "xmat", "xipos", 
                "ctrl", "mocap_pos", "mocap_quat", "userdata", "qfrc_applied", "xfrc_applied", "xanchor", "xaxis", "ten_J", "actuator_moment",
                "crb", "M", "contact.dist", "contact.pos", "contact.frame", "contact.includemargin", "contact.friction", "contact.solref",
                "contact.solreffriction", "contact.solimp", "efc.pos", "efc.margin", "efc.J", "energy", "flexvert_xpos"}
+
+
+class StageNeed:
+  """Stage tap (seam S7): records the capacity need after every forward() executed inside a public op, so that the need of
+  intermediate Runge-Kutta stages is seen too. Used to measure, never to decide."""
+
+  def __init__(self):
+    self.nefc = None
+    self.nacon = 0
+    self.ncollision = 0
+    self.calls = 0
+
+  def __enter__(self):
+    from mujoco_warp._src import forward as F
+
+    self._F = F
+    self._orig = F.forward
+    rec = self
+
+    def tapped(m, d):
+      out = rec._orig(m, d)
+      n = d.nefc.numpy()
+      rec.nefc = n.copy() if rec.nefc is None else np.maximum(rec.nefc, n)
+      rec.nacon = max(rec.nacon, int(d.nacon.numpy()[0]))
+      rec.ncollision = max(rec.ncollision, int(d.ncollision.numpy()[0]))
+      rec.calls += 1
+      return out
+
+    F.forward = tapped
+    return self
+
+  def __exit__(self, *a):
+    self._F.forward = self._orig
